@@ -10,6 +10,7 @@ import BppModel.Text.TableU
 import BppModel.Text.Vars
 import BppModel.Text.DistU
 import BppModel.Text.ToIntU
+import BppModel.Text.RecogU
 /-
 Driver for C16 (text and option parsing never crashes, corrupts memory or hangs).
 Stateless: every op carries its inputs (strings hex-escaped, "-" = empty).  The model's answer is
@@ -205,8 +206,9 @@ def step (s : Unit) (op : List String) (impl : Option (List String)) : Unit × S
   | ["tt.num", h, hd, hc] =>
     match unhex h, char? hd, char? hc with
     | some a, some dec, some sci =>
-      let out := showBool (Number.isDecimalNumber dec sci a) ++ " " ++ showBool (Number.isDecimalInteger sci a)
-        ++ " " ++ showR (fun _ => "ok") (toDoubleClass dec sci a) ++ " " ++ showR (fun _ => "ok") (toIntU sci a)
+      -- the UB-aware recognisers / conversions (RecogU, ToIntU): an access out of range would show as `ub`
+      let out := showR showBool (isDecimalNumberU dec sci a) ++ " " ++ showR showBool (isDecimalIntegerU sci a)
+        ++ " " ++ showR (fun _ => "ok") (toDoubleU dec sci a) ++ " " ++ showR (fun _ => "ok") (toIntU sci a)
       (s, out, classVerdict impl)
     | _, _, _ => bad
   | ["tt.resizeR", h, n, hf] =>
@@ -339,6 +341,8 @@ def step (s : Unit) (op : List String) (impl : Option (List String)) : Unit × S
         | .error e => showErr e
       (s, ans, classVerdict impl)
     | none => bad
+  | "dt.edit" :: _ => (s, "?", classVerdict impl)
+  | "at.opts" :: _ => (s, "?", classVerdict impl)
   | "nc.vec" :: _ => (s, "?", classVerdict impl)
   | "nc.seq" :: _ => (s, "?", classVerdict impl)
   | "ct.parse" :: _ => (s, "?", classVerdict impl)
